@@ -94,8 +94,12 @@ func c55(c *Ctx) {
 		var header *ssa.BasicBlock
 		for _, b := range f.Blocks {
 			if i, ok := b.Instrs[len(b.Instrs)-1].(*ssa.If); ok {
-				if bo, ok := i.Cond.(*ssa.BinOp); ok && bo.Op == token.LSS && LenOf(FieldLoad(fEntry))(bo.Y) {
-					if _, isPhi := bo.X.(*ssa.Phi); isPhi && isLoopHeader(b) {
+				if bo, ok := i.Cond.(*ssa.BinOp); ok {
+					x, y, op := bo.X, bo.Y, bo.Op
+					if op == token.GTR { // len(entries) > index
+						x, y, op = y, x, token.LSS
+					}
+					if _, isPhi := x.(*ssa.Phi); isPhi && op == token.LSS && LenOf(FieldLoad(fEntry))(y) && isLoopHeader(b) {
 						header = b
 					}
 				}
